@@ -606,10 +606,10 @@ func model(cs Case) *big.Int {
 
 // coarseSign maps an operand to the class used in signatures: neg (minimum
 // and both spellings included); top (unsigned, most significant bit of the
-// type set); p32 / p64 (non-negative value of bit length exactly 32 / 64 in
-// a wider type: the most significant bit of the constant's own 32/64-bit
-// size is set); big (bit length above 64); pos (all other non-negative
-// values, zero included).
+// type set); msb (non-negative value whose constant has the most significant
+// bit of its own 32/64/minimal size set although the type is wider: bit
+// length exactly 32 in a type above 32 bits, exactly 64 in a type above 64
+// bits, or above 64); pos (all other non-negative values, zero included).
 func coarseSign(l Lit, kind string, bits int) string {
 	switch c := signClass(l, kind, bits); c {
 	case "neg", "min", "uneg", "umin":
@@ -618,12 +618,8 @@ func coarseSign(l Lit, kind string, bits int) string {
 		return c
 	}
 	switch n := parse(l.V).BitLen(); {
-	case n > 64:
-		return "big"
-	case n == 64 && bits > 64:
-		return "p64"
-	case n == 32 && bits > 32:
-		return "p32"
+	case n > 64, n == 64 && bits > 64, n == 32 && bits > 32:
+		return "msb"
 	}
 	return "pos"
 }
